@@ -9,7 +9,9 @@ boundary, eigenvalues per mode, residual / fit per sweep); the recorded oracle a
 skeleton in Coq (Model/W4SHarness.v) and iteration counts / returned best index / traces / ranks are compared exactly.
 Wave 5: Gen/GenSampler.v (GCPSampler constructor: default-count table, bridge to Alg/C13Config.v, Props/W4SC13b.v, op sk_sampler),
 Gen/GenHosvdFull.v (whole hosvd, Props/W4SC10c.v, op sk_hosvd_full), Gen/GenCpAlsPre.v (prologue of cp_als, Props/W4SC09b.v, op
-sk_cpals_pre), Gen/GenGcpOpt.v (gcp_opt + _get_initial_guess, Props/W4SC13c.v, op sk_gcp_opt with stub solvers)."""
+sk_cpals_pre), Gen/GenGcpOpt.v (gcp_opt + _get_initial_guess, Props/W4SC13c.v, op sk_gcp_opt with stub solvers).
+Wave 7: Gen/GenCpAprPdnr.v, Gen/GenCpAprPqnr.v (row-subproblem drivers of cp_apr, Props/W4SC11b.v, ops sk_pdnr / sk_pqnr: generators, recorder,
+model check and oracle live in tools/props/w4s_c11b.py and are delegated to)."""
 import math
 from fractions import Fraction
 
@@ -17,11 +19,11 @@ from vcheck import Case, gz, gzlist, gnat, gnlist, gnmat, gbool
 
 PROP = "W4S"
 LEVEL = "proof"
-GEN_UNITS = ["GenSolver", "GenHosvd", "GenCpAls", "GenTuckerAls", "GenCpAprMu", "GenSampler", "GenHosvdFull", "GenCpAlsPre", "GenGcpOpt"]
-COQ_TARGETS = ["Props/W4SC13.vo", "Props/W4SC10.vo", "Props/W4SC10b.vo", "Props/W4SC09.vo", "Props/W4SC11.vo", "Props/W4SC13b.vo", "Props/W4SC10c.vo", "Props/W4SC09b.vo", "Props/W4SC13c.vo", "Props/W4SC13d.vo", "Model/W4SHarness.vo"]
-THEOREM_FILES = ["Props/W4SC13.v", "Props/W4SC10.v", "Props/W4SC10b.v", "Props/W4SC09.v", "Props/W4SC11.v", "Props/W4SC13b.v", "Props/W4SC10c.v", "Props/W4SC09b.v", "Props/W4SC13c.v", "Props/W4SC13d.v"]
+GEN_UNITS = ["GenSolver", "GenHosvd", "GenCpAls", "GenTuckerAls", "GenCpAprMu", "GenSampler", "GenHosvdFull", "GenCpAlsPre", "GenGcpOpt", "GenCpAprPdnr", "GenCpAprPqnr"]
+COQ_TARGETS = ["Props/W4SC13.vo", "Props/W4SC10.vo", "Props/W4SC10b.vo", "Props/W4SC09.vo", "Props/W4SC11.vo", "Props/W4SC13b.vo", "Props/W4SC10c.vo", "Props/W4SC09b.vo", "Props/W4SC13c.vo", "Props/W4SC13d.vo", "Props/W4SC11b.vo", "Model/W4SHarness.vo", "Model/W4SHarnessPdnr.vo", "Model/W4SHarnessPqnr.vo"]
+THEOREM_FILES = ["Props/W4SC13.v", "Props/W4SC10.v", "Props/W4SC10b.v", "Props/W4SC09.v", "Props/W4SC11.v", "Props/W4SC13b.v", "Props/W4SC10c.v", "Props/W4SC09b.v", "Props/W4SC13c.v", "Props/W4SC13d.v", "Props/W4SC11b.v"]
 COQ_IMPORTS = ("From Coq Require Import List ZArith Bool.\n"
-               "From PV Require Import Model.W4SHarness Model.W4SPreludeZ Gen.GenSampler.\n")
+               "From PV Require Import Model.W4SHarness Model.W4SPreludeZ Gen.GenSampler Model.W4SHarnessPdnr Model.W4SHarnessPqnr.\n")
 RULE = ("solve: SGD/Adam on 2x2..3x2x2 problems, rates 1e-3..30 (failing epochs), max_fails 0..2, max_iters 0..5, epoch_iters 0..3, "
         "tolerances; hosvd: dense integer data incl. exactly low-rank, scaled by 2^-30..2^30, tolerances 1e-8..0.9, given / automatic "
         "/ mixed ranks, both truncation modes, all mode orders; cp_als: small dense data, maxiters 0..6, stoptol 0..1, printitn 0/1/2, "
@@ -141,6 +143,8 @@ def gen_cases(rng, tier):
     cases += _hosvd_full_cases(rng, big)
     cases += _cpals_pre_cases(rng, big)
     cases += _gcp_opt_cases(rng, big)
+    from props import w4s_c11b as _c11b          # (wave 7; appended last: the earlier cases keep their random draws)
+    cases += _c11b.gen_cases(rng, tier)
     return cases
 
 
@@ -692,6 +696,9 @@ def _run_gcp_opt(a):
 
 
 def run_impl(c):
+    if c.op in ("sk_pdnr", "sk_pqnr"):
+        from props import w4s_c11b as _c11b
+        return _c11b.run_impl(c)
     try:
         if c.op == "sk_gcp_opt":
             return _run_gcp_opt(c.args)
@@ -732,6 +739,9 @@ def _pairs_zlist_nlist(ps, z):
 
 
 def coq_check(c, o):
+    if c.op in ("sk_pdnr", "sk_pqnr"):
+        from props import w4s_c11b as _c11b
+        return _c11b.coq_check(c, o)
     a = c.args
     if o.get("skip"):
         return None
@@ -924,6 +934,9 @@ def coq_check(c, o):
 # ------------------------------------------------------------------------------------------------- oracle
 def oracle(c, o):
     """brute force on pyttb's own observations: does the statement of C13 / C10 / C09 about the control flow hold? (pure Python)"""
+    if c.op in ("sk_pdnr", "sk_pqnr"):
+        from props import w4s_c11b as _c11b
+        return _c11b.oracle(c, o)
     a = c.args
     if c.op == "sk_sampler":
         # C13 about the defaults: no default count exceeds what the tensor holds (pure Python on the read-back)
